@@ -45,6 +45,11 @@ def handle : List Sexp → Option String
   | .atom "KREALDEC" :: .atom fo :: args => do
       let a ← intArgs args
       some (out (GenK.realDec (← fo.toInt?) a))
+  | .atom "KDECLEN" :: .atom indef :: .atom fo :: args => do
+      let a ← intArgs args
+      some (match GenK.decodeLength (indef == "1") (← fo.toInt?) a with
+        | .ok l => s!"ok {l}"
+        | .error e => "err " ++ errName e)
   | .atom "KOIDDEC" :: args => do
       let a ← intArgs args
       some (out (GenK.oidDecode a))
